@@ -973,13 +973,17 @@ package graphql
 //@   guarded[C07] list., M|string|*list.Element by &c.mu
 //@   props C06 C07
 //@   nosafety
-//@   assigns class:list., class:atomic., class:M|string|*list.Element, class:graphql.planCacheEntry, class:graphql.planCacheItem
+// (frame: an item that is linked into the table is never rewritten — its key and its entry pointer are set when it is
+// allocated; only the entry's schema / result are refreshed. A recycled item whose key is overwritten leaves the
+// evicted key pointing at another query's plan.)
+//@   assigns class:list., class:atomic., class:M|string|*list.Element, class:graphql.planCacheEntry
 //@   requires c != nil
 //@   requires !held(&c.mu)
 //@   requires c.entries != nil
 //@   requires c.order != nil
 //@   requires c.order.len >= 0
 //@   ensures !held(&c.mu)
+//@   at call delete: assert arg1 == oi.key
 //@   ensures old(has(c.entries, key)) ==> has(c.entries, key) && as(c.entries[key].Value, "*graphql.planCacheItem").e.schema == schema && as(c.entries[key].Value, "*graphql.planCacheItem").e.result == pr
 //@   ensures old(c.order.len) <= c.opts.MaxEntries && c.opts.MaxEntries >= 0 ==> c.order.len <= c.opts.MaxEntries
 //@   at call Remove: assert calls("Remove") == calls("delete")
